@@ -275,7 +275,7 @@ def fam_pressure(rng, tier):
     for i in range(m):
         body.append("dmov d:%d(p), w%d" % (8 * perm[i], i))
     body += ["dadd r, w0, w%d" % (m - 1), "ret r"]
-    g.func("fp16", "d, p:p", body, p="buf0", fp="1")
+    g.func("fp16", "d, p:p", body, p="buf0", fp="1", tier="thorough")  # 2.4 M variables / 11.8 M clauses per path
     # values live across an external call: callee-saved registers + spills.  Data movement only (the values come from
     # memory and go back permuted after the call) - an add/xor chain over 10 terms sharing one variable cost MiniSat 420 s
     g.raw("xp_live: proto i64, i64:x", "import xlive")
